@@ -129,6 +129,23 @@ def decToPy (s : Str) : Except Err Dec :=
   | some (neg, ip, fr) => .ok ⟨neg, digitsVal (ip ++ fr), - (fr.length : Int)⟩
   | none => .error .value
 
+/-- `[elem_to_py(v) for v in items]` -/
+def decItems : List Str → Except Err (List Dec)
+  | [] => .ok []
+  | t :: ts =>
+    match decToPy t with
+    | .error e => .error e
+    | .ok d =>
+      match decItems ts with
+      | .error e => .error e
+      | .ok ds => .ok (d :: ds)
+
+/-- tokens of a list valued attribute: `[v for v in xml_value.split(' ') if v]` -/
+def listTokens (s : Str) : List Str := (s.splitOn 32).filter (fun t => !t.isEmpty)
+
+/-- `DecimalListAttributeProperty.get_py_value_from_node` for a present attribute -/
+def decListToPy (s : Str) : Except Err (List Dec) := decItems (listTokens s)
+
 /-- `format(d, 'f')` -/
 def decFormatF (d : Dec) : Str :=
   let sign : Str := if d.neg then [45] else []
